@@ -613,6 +613,18 @@ func (g *Gen) genC16() {
 		addM(asciiLower(nm), "method-lower")
 		addM(r.ReCase(nm), "method-recased")
 	}
+	// very long names that START with a table name: lengths len(name) + 255 / 256 / 257 / 512 / 65536-ish (a length kept in
+	// 8 or 16 bits, a compare bounded by the table entry) — still 'other'
+	for _, nm := range hnames {
+		for _, extra := range []int{255, 256, 257, 512, 768, 65280} {
+			addH(r.ReCase(nm)+strings.Repeat(r.Pick("x", "-", "a"), extra), "hdr-long-prefixed")
+		}
+	}
+	for _, nm := range mnames {
+		for _, extra := range []int{256, 512} {
+			addM(nm+strings.Repeat("X", extra), "method-long-prefixed")
+		}
+	}
 	// all strings of length 0..2, length 3 over a reduced alphabet
 	addH("", "hdr-short")
 	addM("", "method-short")
